@@ -676,6 +676,37 @@ class LoopMixin:
             self.frames.pop()
             self.stack = old_stack
 
+    def drain_generator(self, g, node):
+        """list(generator): run it to completion collecting what it yields.  Exact when the generator's loops run over
+        concrete collections; when one of its loops is generalised the result is a list of unknown contents."""
+        if g.started:
+            self.note_unknown(node, 'generator consumed twice')
+            return ListV(items=None)
+        g.started = True
+        items = []
+        holder = getattr(self, '_drain_nodes', None)
+        if holder is None:
+            holder = self._drain_nodes = {}
+        st = holder.get(id(node))
+        if st is None:
+            st = ast.For(target=ast.Name(id='__drained', ctx=ast.Store()), iter=ast.Name(id='__gen', ctx=ast.Load()),
+                         body=[ast.Pass()], orelse=[])
+            if node is not None:
+                ast.copy_location(st, node)
+            holder[id(node)] = st
+        self.consumers = getattr(self, 'consumers', [])
+        self.consumers.append({'node': st, 'depth': len(self.frames), 'stack': self.stack, 'callback': items.append})
+        n0 = len(self.events)
+        try:
+            self._starting_generator = True
+            self.call_function(g.fi, g.args, g.kwargs, self_obj=g.self_obj, node=node, cls_obj=g.cls_obj, closure=g.closure)
+        finally:
+            self.consumers.pop()
+        if any(e.kind == 'loop-head' for e in self.events[n0:]):
+            # a generalised loop ran inside: the values seen are those of one generic iteration only
+            return ListV(items=None, elem=self.join_many(items) if items else None, length=None, desc='list(generator)')
+        return ListV(items=items)
+
     def _for_generator(self, st, g):
         """for x in <generator call>: run the generator body; the loop body executes at every yield."""
         if g.started:
@@ -691,6 +722,7 @@ class LoopMixin:
         except ConsumerSignal as cs:
             self.consumers.pop()
             if isinstance(cs.inner, BreakSig):
+                self.event('loop-exit', st, how='break')
                 return
             raise cs.inner
         self.consumers.pop()
